@@ -79,3 +79,20 @@ Theorem C11_message_roundtrip : forall k msgs c, Forall msg_ok msgs -> w_pend c 
                    = Ok (map (fun q => (fst q, canon PBinary (snd q))) msgs, u') /\ urest u' = r.
 Proof. exact unchecked_message_roundtrip. Qed.
 Print Assumptions C11_message_roundtrip.
+
+(* the envelope WRITER: a sequence of enveloped messages written back to back by the unchecked writer on
+   a transport set up as the contract prescribes, with room for the bytes of the whole sequence: exactly
+   the segments of the checked binary writer, room and zero-copy accounting exact, write index = bytes
+   written on a contiguous buffer; no write outside the room (with one byte less: Example
+   unchecked_message_write_example) *)
+From PV Require Import Proofs.UMsgWriteP.
+Theorem C11_message_write_eq : forall k zc msgs cap,
+  Forall msg_ok msgs ->
+  (match k with BContig => True | BLinked z => z = zc end) ->
+  exists ss, write_msgs PBinary k msgs w0 = Ok (ss, w0) /\
+    (Z.of_nat (length (flat ss)) <= cap ->
+     exists u', uwrite_msgs zc msgs (match k with BContig => uw_contig cap | BLinked _ => uw_linked cap end) = Ok (ss, u') /\
+       uw_room u' = cap - copy_len ss /\ uw_zc u' = zc_len ss /\
+       (k = BContig -> uw_idx u' = Z.of_nat (length (flat ss)))).
+Proof. exact unchecked_message_write_eq. Qed.
+Print Assumptions C11_message_write_eq.
